@@ -172,3 +172,47 @@ func VerifH_C05_unary_numbers() {
 		verifAssert(v.String() == "number", "11.4.3 typeof number")
 	}
 }
+
+// Compound assignment (11.13.2): the left operand's value is read BEFORE the
+// right operand is evaluated, the reference is evaluated once, and the result
+// is the stored value. Operands any doubles; the right operand assigns to the
+// same variable / property / element.
+func VerifH_C05_compound_assignment() {
+	vm := New()
+	a, b := verifNondetFloat64(), verifNondetFloat64()
+	vm.Set("a", a)
+	vm.Set("b", b)
+	ops := []string{"+", "-", "*", "/"}
+	op := ops[verifChoose(len(ops))]
+	target := verifChoose(4)
+	var script string
+	switch target {
+	case 0:
+		script = "var v = a; var r = (v " + op + "= (v = b)); [r, v]"
+	case 1:
+		script = "var o = {p: a}; var r = (o.p " + op + "= (o.p = b)); [r, o.p]"
+	case 2:
+		script = "var arr = [a], i = 0; var r = (arr[i++] " + op + "= (arr[0] = b)); [r, arr[0], i]"
+	default:
+		script = "var n = 0, o = {p: a}; function obj() { n++; return o } var r = (obj().p " + op + "= b); [r, o.p, n]"
+	}
+	verifLog(script)
+	v, ok := verifRun(vm, script)
+	verifCover("reached")
+	verifAssert(ok, "does not throw")
+	if !ok {
+		return
+	}
+	want, _ := refBinaryNumber(op, a, b)
+	o := v.Object()
+	r0, _ := o.Get("0")
+	r1, _ := o.Get("1")
+	f0, _ := r0.ToFloat()
+	f1, _ := r1.ToFloat()
+	verifAssert(sameF64(f0, want) && sameF64(f1, want), "11.13.2: lval is read before the right operand runs; the result is what was stored")
+	if target >= 2 {
+		r2, _ := o.Get("2")
+		f2, _ := r2.ToFloat()
+		verifAssert(f2 == 1, "11.13.2: the left-hand side is evaluated exactly once")
+	}
+}
